@@ -79,6 +79,10 @@ HOLES += [
      {"self.check_position_variants(&flags, &fields, grammar)?; ": "true", "": "false"}, "true"),
     ("codegen/src/common.rs", "raw_kw_guard", "bool", "pub const RUST_KEYWORDS: ", '[&str; 47] = [ "as", "break", "const", "continue", "else", "enum", "extern", "false", "fn", "for", "if", "impl", "in", "let", "loop", "match", "mod", "move", "mut", "pub", "ref", "return", "static", "struct", "trait", "true", "type", "unsafe", "use", "where", "while", "async", "await", "dyn", "abstract", "become", "box", "do", "final", "macro", "override", "priv", "typeof", "unsized", "virtual", "yield", "try", ];', "",
      {'[&str; 47] = [ "as", "break", "const", "continue", "else", "enum", "extern", "false", "fn", "for", "if", "impl", "in", "let", "loop", "match", "mod", "move", "mut", "pub", "ref", "return", "static", "struct", "trait", "true", "type", "unsafe", "use", "where", "while", "async", "await", "dyn", "abstract", "become", "box", "do", "final", "macro", "override", "priv", "typeof", "unsized", "virtual", "yield", "try", ];': "true", '[&str; 50] = [ "as", "break", "const", "continue", "else", "enum", "extern", "false", "fn", "for", "if", "impl", "in", "let", "loop", "match", "mod", "move", "mut", "pub", "ref", "return", "self", "Self", "static", "struct", "super", "trait", "true", "type", "unsafe", "use", "where", "while", "async", "await", "dyn", "abstract", "become", "box", "do", "final", "macro", "override", "priv", "typeof", "unsized", "virtual", "yield", "try", ];': "false"}, "true"),
+    ("codegen/src/grammar/mod.rs", "idents_checked", "bool", "", "self.check_identifiers(settings)?; ", "",
+     {"self.check_identifiers(settings)?; ": "true", "": "false"}, "true"),
+    ("codegen/src/grammar/mod.rs", "cycles_checked", "bool", "", "self.check_include_cycles()?; ", "let mut all_types = TokenStream::new();",
+     {"self.check_include_cycles()?; ": "true", "": "false"}, "true"),
     ("cli/src/main.rs", "cli_exit_nonzero", "bool", 'println!("{}: {}", "Error".red().bold(), e)', "; std::process::exit(1);", " } }",
      {"; std::process::exit(1);": "true", "": "false", ";": "false"}, "true"),
 ]
